@@ -671,6 +671,9 @@ func run(c *vh.Ctx) error {
 	h.allocExplore()
 	h.concurrentFirstUse()
 
+	// ---- the node's own decode entry points: honest encodings and padded / re-headed variants ---------------------
+	h.entryPoints()
+
 	// ---- known-finding probes (fixed witnesses, independent of the seed) ------------------------------------------
 	h.probes()
 
@@ -850,6 +853,11 @@ func (h *H) replayBody(body []string) (bool, string) {
 					h.failed = true
 					h.msgs = append(h.msgs, why)
 				}
+			}
+		case len(f) == 3 && f[0] == "P":
+			if w := entryOne(f[1], unhx(f[2])); w != "" {
+				h.failed = true
+				h.msgs = append(h.msgs, w)
 			}
 		case len(f) >= 2 && (f[0] == "A" || f[0] == "C"):
 			h.replayExplore(f)
